@@ -339,7 +339,8 @@ def run_case(ck, desc):
         + rw * kr_own["krw"](Soe) / (own["mu_w"](pe) * own["Bw"](pe))
     )
     lam = np.asarray(fp.lambda_combined_func(pe, Soe, pvt_lib, kr_lib), dtype=float)
-    e = float(np.max(np.abs(lam - lam_own) / np.abs(lam_own)))
+    # (where nothing tracked is mobile both sides are exactly 0: compared absolutely there)
+    e = float(np.max(np.abs(lam - lam_own) / np.maximum(np.abs(lam_own), 1e-300)))
     if not ck.margin("mobility = documented sum", e, 1e-13):
         ck.violation("mobility-documented-sum", {"rel": e}, desc)
     # the object keeps answering for the table it was BUILT from after the caller edits that table in
@@ -401,7 +402,7 @@ def run_case(ck, desc):
     # diffusivity = mobility / compressibility (stand-alone and tabulated)
     if not const_tab:
         al = np.asarray(fp.alpha_multiphase(pe, Soe, phi, Sw, pvt_lib, kr_lib), dtype=float)
-        e = float(np.max(np.abs(al - lam / got) / np.abs(lam / got)))
+        e = float(np.max(np.abs(al - lam / got) / np.maximum(np.abs(lam / got), 1e-300)))
         if not ck.margin("alpha_multiphase = lambda / c", e, 1e-13):
             ck.violation("alpha=lambda/c", {"rel": e}, desc)
         tab_alpha = np.asarray(obj.pvt_props["alpha"], dtype=float)
